@@ -10,8 +10,11 @@ and `fast/statement.go` (`Defer`, return).
 Transcription rules / abstractions
 * `Run` below has exactly the fields of `fast.Run` that those functions save, restore or test:
   `Interrupt` (nil / `spinInterrupt`), `Signals.Sync`, `ExecFlags` bits `EFStartDefer`, `EFDefer`,
-  `CurrEnv`, `DeferOfFun`, `PanicFun`, `Panic`.  (`Signals.Async` is C13; `Signals.Debug`, `EFDebug`,
-  `DebugDepth` are rewritten by `applyDebugOp` at the start of every evaluation; the Env pool is C06.)
+  `CurrEnv`, `DeferOfFun`, `PanicFun`, `Panic`, and the debugger mode `EFDebug`, `DebugDepth`, `Signals.Debug`
+  (rewritten by `applyDebugOp` at the start of every evaluation; in single-step mode -- entered with
+  `Interp.Debug`, the scripted debugger always answers "step" -- every function runs in `reExecWithFlags`,
+  `run.Interrupt` is `spinInterrupt` while statements are single-stepped, and `Debugger.At` is called before
+  every statement).  (`Signals.Async` is C13; the Env pool is C06; breakpoints are not modelled.)
 * `*Env` identities are natural numbers: `0` is the interpreter's file-level Env, which is the `funenv`
   of top-level code in EVERY evaluation; each function call gets a fresh identity (an Env through which
   a panic escaped is never returned to the pool, and `PanicFun` only ever points to such an Env or to
@@ -46,7 +49,13 @@ structure Run where
   deferOfFun : Option Nat := none
   panicFun : Option Nat := none
   panicVal : Option Nat := none
+  efDebug : Bool := false      -- ExecFlags bit EFDebug
+  debugDepth : Bool := false   -- DebugDepth: false = 0, true = MaxInt (single-step everything)
+  sigDebug : Bool := false     -- Signals.Debug == SigDebug
   deriving Repr, DecidableEq
+
+/-- `Run.applyDebugOp(DebugOpStep)` (`step = true`) / `(DebugOpContinue)`: the three debugger fields are rewritten -/
+def applyDebugOp (step : Bool) (r : Run) : Run := { r with debugDepth := step, efDebug := step, sigDebug := step }
 
 inductive Op
   | pad (k : Nat)
@@ -103,6 +112,7 @@ structure St where
   hooks : Nat := 0
   nextEnv : Nat := 1
   log : List Nat := []
+  atc : Bool := false     -- ghost: `Debugger.At` was called (a statement was single-stepped)
   deriving Repr, DecidableEq
 
 /-- one more round of the first phase is over; after `rounds` rounds: `run.Interrupt = spinInterrupt` -/
@@ -133,7 +143,7 @@ def recoverOp (s : St) : St :=
 /-- a statement returns `run.Interrupt` as next statement in the second phase: a nil statement is
     called by the next slot unless this was the last slot of the turn -/
 def nilStmtCrash (U : Unroll) (a : Act) (s : St) : Bool :=
-  a.ph2 && s.run.interrupt == .nil && a.i + 1 < U.spin
+  a.ph2 && s.run.interrupt == .nil && a.i + 1 < U.spin && !s.run.sigDebug
 
 mutual
 /-- the statements of one activation; returns the outcome, the activation (its installed defers) and the state -/
@@ -198,13 +208,15 @@ def callFn (P : Prog) : Nat → Nat → St → Out × St
 def execFn (P : Prog) : Nat → Nat → Nat → St → Out × St
   | 0, _, _, s => (.panic noFuel, s)
   | fuel + 1, f, env, s =>
-    let s := { s with run := { s.run with sync := .none } }
-    if P.withDefers f || s.run.efStart || s.run.efDefer then
+    -- in single-step mode (`Signals.Debug` set) every statement is preceded by `Debugger.At`
+    let s := { s with run := { s.run with sync := .none }, atc := s.atc || s.run.sigDebug }
+    if P.withDefers f || s.run.efStart || s.run.efDefer || s.run.efDebug then
       -- reExecWithFlags
       let savedDefer := s.run.efDefer
       let savedIntr := s.run.interrupt
       let savedCaller := s.run.currEnv
-      let s := { s with run := { s.run with efDefer := s.run.efStart, efStart := false, interrupt := .nil } }
+      -- `SetDefer(StartDefer()); SetStartDefer(false); SetDebug(Signals.Debug != SigNone)`
+      let s := { s with run := { s.run with efDefer := s.run.efStart, efStart := false, interrupt := .nil, efDebug := s.run.sigDebug } }
       match runOps P fuel (P.body f) { env := env, flags := true } s with
       | (o, a, s) =>
         match runDefers P fuel env a.defers o none s with
@@ -255,10 +267,11 @@ end
 inductive Kind | callF | topCode
   deriving Repr, DecidableEq
 
-/-- `Interp.RunExpr` : `prepareEnv` (Sync := none), `defer setCurrEnv(setCurrEnv(env))`, run -/
-def evalTop (P : Prog) (fuel : Nat) (kind : Kind) (f : Nat) (s : St) : Out × St :=
+/-- `Interp.RunExpr` (`dbg = false`) / `Interp.DebugExpr` (`dbg = true`): `prepareEnv` (Sync := none),
+    `applyDebugOp(DebugOpContinue / DebugOpStep)` BEFORE the code runs, `defer setCurrEnv(setCurrEnv(env))`, run -/
+def evalTop (P : Prog) (fuel : Nat) (dbg : Bool) (kind : Kind) (f : Nat) (s : St) : Out × St :=
   let saved := s.run.currEnv
-  let s := { s with run := { s.run with sync := .none, currEnv := some 0 } }
+  let s := { s with run := applyDebugOp dbg { s.run with sync := .none, currEnv := some 0 } }
   let (o, s) := match kind with
     | .callF => callFn P fuel f s
     | .topCode => execFn P fuel f 0 s
